@@ -8,7 +8,7 @@ import json, os, subprocess, sys, glob, shutil, concurrent.futures as cf
 import lib
 
 PID = "C07"
-THEOREMS = ["Properties_C07.v", "Properties_C07_more.v"]
+THEOREMS = ["Properties_C07.v", "Properties_C07_more.v", "Properties_C07_overflow_more.v"]
 # checks whose harnesses are re-run under the sanitizers (each rebuilds its harness through lib.build_cpp)
 SUBCHECKS = ["C01", "C05", "C10", "C12", "C13", "C14", "C15", "C16", "C17", "C18", "C03", "C09", "C20", "C04"]
 
